@@ -538,6 +538,7 @@ func FoldOption[A, B any](s fp.List[A], zero B, f func(B, A) fp.Option[B]) fp.Op
 		} else {
 			return t
 		}
+		cursor = cursor.Tail()
 	}
 	return fp.Some(sum)
 }
